@@ -10,7 +10,7 @@ LEVEL = "model_checking"
 ANCHOR_PREFIXES = ["position::", "element::SvgElement::expand_compound", "element::SvgElement::split_compound", "element::SvgElement::resolve", "element::SvgElement::translated",
                    "element::SvgElement::transmute", "element::SvgElement::bbox", "types::attr_split"]
 BOUNDS = ("shapes rect/circle/ellipse/line; per axis every pair from {start,end,centre,length} (6x6), circles also one-axis-plus-one-value; longhand and the shorthands "
-          "xy cxy xy1 xy2 wh rxy dxy dwh xy+xy-loc, one or two values, space/comma separators; positions k/2 in [-512,512], lengths k/2 in [0,256], dx/dy k/2 in [-64,64]; "
+          "xy cxy xy1 xy2 wh rxy dxy dwh xy+xy-loc, one or two values, space/comma separators, longhand values padded with white space; positions k/2 in [-512,512], lengths k/2 in [0,256], dx/dy k/2 in [-64,64]; "
           "boxes with end>=start for rect/circle/ellipse (stated as an assumption in the query); one element per document; one axis with a length only or with nothing (SVG default position), with dx / dy / dxy; elements solved on a retry; radius spelling r for the free axis of an ellipse")
 ASSUMPTIONS = ["reference semantics per axis: (s,e)->[s,e]; (s,m)->[s,2m-s]; (e,m)->[2m-e,e]; (s,l)->[s,s+l]; (e,l)->[e-l,e]; (m,l)->[m-l/2,m+l/2] (Appendix A, from the property text)",
                "circle templates assume equal extents on both axes (a circle cannot describe any other box)"]
@@ -67,6 +67,15 @@ def spellings(shape, xp, yp):
                     parts.append(f'{n}="{ph[(ax, q)]}"')
             return " ".join(parts)
         out.append(("long-" + startnames[0], lh, {}))
+    # longhand values padded with white space: the value is the number (a shorthand splits on the same white space)
+    for pad in ((" ", ""), ("", " "), (" ", " ")):
+        def lhp(ph, pad=pad):
+            parts = []
+            for ax, pair in (("x", xp), ("y", yp)):
+                for q in pair:
+                    parts.append(f'{LONG[ax][q]}="{pad[0]}{ph[(ax, q)]}{pad[1]}"')
+            return " ".join(parts)
+        out.append((f"long-padded[{pad[0]}|{pad[1]}]", lhp, {}))
     # shorthand for every quantity present on both axes
     common = [q for q in xp if q in yp]
     sh_names = {"s": ["xy", "xy1"], "e": ["xy2"], "m": ["cxy"], "l": ["wh"] + (["rxy"] if shape == "ellipse" else [])}
@@ -170,7 +179,7 @@ def templates(tier, seed):
         for form in ("xy+wh", "cxy+wh", "xy1+xy2", "xy2+wh", "dxy1"):
             tds.append(dict(fam="single", shape=shape, form=form))
     # dwh / dw dh equivalence (twin documents)
-    for shape in ("rect", "ellipse"):
+    for shape in ("rect", "ellipse", "line"):
         for kind in ("abs", "pct"):
             tds.append(dict(fam="dwh", shape=shape, kind=kind))
     return tds
@@ -371,13 +380,21 @@ def build(td, wrong=False):
             d1 = f'<svg><{shape} xy="[[0]] [[1]]" wh="[[2]] [[3]]" dwh="50% 25%"/></svg>'
             d2 = f'<svg><{shape} xy="[[0]] [[1]]" wh="[[2]] [[3]]" dw="50%" dh="25%"/></svg>'
 
+        # third document: the adjusted size written out
+        if kind == "abs":
+            d3 = f'<svg><{shape} xy="[[0]] [[1]]" wh="{{{{[[2]] + [[4]]}}}} {{{{[[3]] + [[5]]}}}}"/></svg>'
+        else:
+            d3 = f'<svg><{shape} xy="[[0]] [[1]]" wh="{{{{[[2]] * 0.5}}}} {{{{[[3]] * 0.25}}}}"/></svg>'
+        if shape == "line":
+            d1, d2, d3 = (d.replace(' xy="', ' xy1="') for d in (d1, d2, d3))
+
         def check(r):
             if any(d["status"] != "ok" for d in r.docs):
                 return [Obl("transform-ok", FAIL, ground=True)]
-            o1, o2 = Out(r.docs[0]["output"]), Out(r.docs[1]["output"])
-            e1, e2 = o1.by_tag(shape)[0], o2.by_tag(shape)[0]
+            o1, o2, o3 = Out(r.docs[0]["output"]), Out(r.docs[1]["output"]), Out(r.docs[2]["output"])
+            e1, e2, e3 = o1.by_tag(shape)[0], o2.by_tag(shape)[0], o3.by_tag(shape)[0]
             obls = []
-            if sorted(e1.attrib) != sorted(e2.attrib):
+            if sorted(e1.attrib) != sorted(e2.attrib) or (shape != "ellipse" and sorted(e1.attrib) != sorted(e3.attrib)):
                 return [Obl("same-attribute-names", FAIL, ground=True)]
             for a in e1.attrib:
                 if a in G.GEOM_ATTRS:
@@ -385,8 +402,10 @@ def build(td, wrong=False):
                     if wrong:
                         y = plus(y, "1.0")
                     obls.append(Obl(f"dwh≡dw,dh:{a}", ne(x, y)))
+                    if shape != "ellipse":      # (dw / dh on an ellipse sized via wh are ignored on the pinned tree: observed, not asserted)
+                        obls.append(Obl(f"dwh≡adjusted-size-written-out:{a}", ne(x, o3.num(e3, a))))
             bad = G.foreign_geom_attrs(o1, e1)
             obls.append(Obl("only-native-geometry-attrs", FAIL if bad else PASS, ground=True, note=",".join(bad)))
             return obls
-        return Template(f"dwh/{shape}/{kind}", [d1, d2], vars_, check, family="dwh-shorthand", role="C11/dwh", cap=8)
+        return Template(f"dwh/{shape}/{kind}", [d1, d2, d3], vars_, check, family="dwh-shorthand", role="C11/dwh", cap=8)
     raise ValueError(fam)
